@@ -12,6 +12,8 @@ configurations raise, and probes the four Convolve* linops for adjointness.
 import itertools
 import multiprocessing as mp
 
+import warnings
+
 import numpy as np
 
 from .. import core, tlaval, tlc
@@ -105,6 +107,24 @@ def check_state(job):
                 expr[(slice(None), j) + pp] += dd.real[(slice(None), i) + tt] * ff.real[(j, i) + uu]
     if not np.array_equal(yr, expr.reshape(oshape)) or np.iscomplexobj(yr):
         out.append((["C08"], "value_real", "convolve on real arrays differs from the definition"))
+    # operands of different kinds (real data x complex filter, complex data x real filter, integer data x real filter): the
+    # statement allows a rejection, never a wrong value (e.g. an imaginary part dropped by an unsafe cast)
+    for dlabel, dv, fv in (("real data, complex filter", data.real.copy(), filt), ("complex data, real filter", data, filt.real.copy()),
+                           ("integer data, float filter", data.real.astype(np.int64), filt.real * 0.5)):
+        ddm, ffm = dv.reshape((B, ci) + m), fv.reshape((co, ci) + n)
+        expm = np.zeros((B, co) + p, dtype=np.complex128)
+        for pp, tt, uu in tr:
+            for j in range(co):
+                for i in range(ci):
+                    expm[(slice(None), j) + pp] += ddm[(slice(None), i) + tt] * ffm[(j, i) + uu]
+        try:
+            with warnings.catch_warnings():
+                warnings.simplefilter("ignore")
+                ym = sp.convolve(dv, fv, **kw)
+        except Exception:
+            continue
+        if tuple(ym.shape) != oshape or not np.allclose(ym, expm.reshape(oshape), atol=1e-9):
+            out.append((["C08"], "value_mixed", "convolve with %s neither raised nor returned the convolution (max |diff| %.3g)" % (dlabel, float(np.abs(np.asarray(ym).reshape(-1) - expm.reshape(-1)).max()) if np.size(ym) == expm.size else -1)))
     # adjoints: transposes of the relation with a conjugate on the fixed argument
     o = gint(rs, oshape)
     oo = o.reshape((B, co) + p)
@@ -141,6 +161,17 @@ def check_state(job):
                 Nn, _ = linop_build.dense(A.N, check_i=False)
                 if Nn is None or not np.allclose(Nn, F.conj().T @ F, atol=1e-9):
                     out.append((["C04"], "normal_matrix", "%s.N differs from A^H A" % name))
+                # the adjoint-type class built directly with the same mode / strides / multi_channel, and its own adjoint
+                try:
+                    B = (sp.linop.ConvolveDataAdjoint(list(dshape), filt, **kw) if name == "ConvolveData" else sp.linop.ConvolveFilterAdjoint(list(fshape), data, **kw))
+                    Bm, _ = linop_build.dense(B, check_i=False)
+                    BH, _ = linop_build.dense(B.H, check_i=False)
+                    if Bm is None or not np.allclose(Bm, F.conj().T, atol=1e-9):
+                        out.append((["C01"], "adjoint_matrix", "%sAdjoint(...) built directly is not the conjugate transpose of %s(...)" % (name, name)))
+                    if BH is None or not np.allclose(BH, F, atol=1e-9):
+                        out.append((["C01"], "adjoint_matrix", "%sAdjoint(...).H does not act like %s(...)" % (name, name)))
+                except Exception as e:
+                    out.append((["C01"], "exception", "%sAdjoint raised %r" % (name, e)))
     return c, out
 
 
